@@ -121,9 +121,18 @@ def universe(tier):
             for b in BIN:
                 yield ('literal-pairs', (b, x, y), AUX, False, 'abA:4')
             yield ('literal-pairs', ('seq', x, ('ref', 'Ry')), AUX + [('Ry', ('rule', None, y))], False, 'abA:4')
+    # the empty sequence [] (succeeds with [] without consuming) in every binary construct
+    E0 = ('seq',)
+    for x in (('str', 'a'), ('ref', 'Rab'), ('re', 'b?'), E0):
+        for b in BIN:
+            yield ('empty-sequence', (b, E0, x), AUX, False, 'abA:3')
+            yield ('empty-sequence', (b, x, E0), AUX, False, 'abA:3')
+    for u in ('opt', 'expect', 'expectnot'):
+        yield ('empty-sequence', (u, E0), AUX, False, 'abA:3')
+    yield ('empty-sequence', E0, AUX, False, 'abA:3')
     # literal shapes: case-insensitive and plain literals that mix letters with digits, blanks and punctuation, on every
     # case variant of their own spelling
-    for spelling in ('a1', '1a', 'a b', 'a_b', 'aB', 'a-b:', 'ab'):
+    for spelling in ('a1', '1a', 'a b', 'a_b', 'aB', 'a-b:', 'ab', 'a\rb', '\r\n', 'a\x00', '\ta"\\'):
         variants = set()
         for bits in range(1 << len(spelling)):
             v = ''.join(c.upper() if bits >> i & 1 else c.lower() for i, c in enumerate(spelling))
